@@ -362,7 +362,7 @@ func specIsRejectErr(err error) bool { _, ok := err.(*RejectError); return ok }
 
 //@ func (*connection).sendWaitReply
 //@ nosafety nil-deref nil-iface
-//@ requires c != nil && msg != nil
+//@ requires c != nil && msg != nil && specRealMsg(msg)
 //@ emits hsms.(transport).Write, hsms.(*ConnectionMetrics).incDataMsgSend, hsms.(*connection).dropNotSelected, hsms.(*ConnectionMetrics).incDataMsgDropNotSelected, hsms.(*connection).TCPDown, IsSelected:true, IsSelected:false, hsms.(*ConnectionMetrics).incDataMsgInflight, hsms.(*ConnectionMetrics).decDataMsgInflight, hsms.(*ConnectionMetrics).incDataMsgErr, hsms.(*connection).sendAutoS9F9, hsms.(*replyRegistry).register, hsms.(*replyRegistry).deregister
 //@ ensures [gate]     specIsData(msg) && zzCalls("IsSelected:false") > 0 ==> zzCalls("hsms.(transport).Write") == 0 &&
 //@                    result1 == ErrNotSelectedState && zzCalls("hsms.(*ConnectionMetrics).incDataMsgDropNotSelected") == 1 && result0 == nil
